@@ -291,3 +291,36 @@ def c09_6(ctx, r):
         r.check(dominated_by(ctx, fn, s, heads), "serialisation follows the clearing loop", key_of(fn, "serialize after clear"), fn.loc(s.stmt), "state is serialised before blocked_by of submitted/done jobs was cleared")
     r.check(ctx.must(fn, "SERIALIZE_CONFIG") and ctx.must(fn, "SERIALIZE_JOBS"), "_update_job_status serialises both files on every normal path", key_of(fn, "serialize both"), fn.loc(),
             "_update_job_status does not reach both _serialize and _serialize_jobs on every normal path: one file is updated without the other")
+
+
+@rule(P, "C09.7", "T8", "a new submission starts consistent: zero counters, every job not_submitted, versions 0 on disk before the data", min_obligations=6)
+def c09_7(ctx, r):
+    cr = ctx.fn("Cluster.create", "C09.7")
+    cc = ctx.cls("ClusterConfig")
+    js = ctx.cls("JobStatus")
+    for s in [s for s in ctx.cg.sites_in(cr) if s.constructs == cc.qual]:
+        kw = {k.arg: ctx.src(k.value) for k in s.node.keywords}
+        r.check(kw.get("num_jobs") == "jade_config.get_num_jobs()", "num_jobs = number of configured jobs", key_of(cr, "num_jobs"), s.loc, f"num_jobs={kw.get('num_jobs')}", "completed <= submitted <= total")
+        r.check(kw.get("version") == "0" and "submitted_jobs" not in kw and "completed_jobs" not in kw and "is_complete" not in kw and "is_canceled" not in kw, "version 0; counters and flags left at their model defaults", key_of(cr, "initial config"), s.loc, f"ClusterConfig({kw})")
+    for fld, want in (("submitted_jobs", "0"), ("completed_jobs", "0"), ("is_complete", "False"), ("is_canceled", "False")):
+        v = cc.ann_values.get(fld)
+        d = next((ctx.src(k.value) for k in v.keywords if k.arg == "default"), None) if isinstance(v, ast.Call) else None
+        r.check(d == want, f"ClusterConfig.{fld} defaults to {want}", f"ClusterConfig::{fld} default", cc.module.relpath + ":1", f"ClusterConfig.{fld} defaults to {d}")
+    for s in [s for s in ctx.cg.sites_in(cr) if s.constructs == js.qual]:
+        kw = {k.arg: k.value for k in s.node.keywords}
+        jobs = kw.get("jobs")
+        ok = isinstance(jobs, ast.ListComp) and not jobs.generators[0].ifs and ctx.src(jobs.generators[0].iter) == "jade_config.iter_jobs()"
+        jk = {k.arg: ctx.src(k.value) for k in jobs.elt.keywords} if ok and isinstance(jobs.elt, ast.Call) else {}
+        v = jobs.generators[0].target.id if ok else "x"
+        r.check(ok and jk.get("state") == "JobState.NOT_SUBMITTED" and jk.get("name") == f"{v}.name" and jk.get("blocked_by") == f"{v}.get_blocking_jobs()" and jk.get("cancel_on_blocking_job_failure") == f"{v}.cancel_on_blocking_job_failure",
+                "one status job per configured job: its name, blockers and cancel flag, state not_submitted", key_of(cr, "initial jobs"), s.loc, f"initial job list is `{ctx.src(jobs)[:120] if jobs is not None else None}`",
+                "a job's state only advances not_submitted -> submitted -> done")
+        r.check(ctx.src(kw.get("hpc_job_ids")) == "[]" and ctx.src(kw.get("version")) == "0" and "batch_index" not in kw, "no active id, version 0, batch index at its default", key_of(cr, "initial status"), s.loc, "initial JobStatus changed")
+    d = next((ctx.src(k.value) for k in js.ann_values["batch_index"].keywords if k.arg == "default"), None)
+    r.check(d == "1", "JobStatus.batch_index defaults to 1", "JobStatus::batch_index default", js.module.relpath + ":1", f"batch_index default {d}")
+    # version files exist before the first guarded serialize
+    cfg = ctx.cfg(cr)
+    vw = [n for sh in ("Cluster._serialize_config_version", "Cluster._serialize_job_status_version") for s in ctx.sites(cr, short=sh) for n in ctx.nodes_of(cr, s.node)]
+    se = [n for sh in ("Cluster.serialize", "Cluster.serialize_jobs") for s in ctx.sites(cr, short=sh) for n in ctx.nodes_of(cr, s.node)]
+    r.check(len(vw) == 2 and len(se) == 2 and all(dominated_by(ctx, cr, s, [v]) for s in se for v in vw), "both version files are written before the first (version-checked) serialisation", key_of(cr, "create order"), cr.loc(),
+            "Cluster.create serialises before the version files exist (the first write fails) or never writes them")
